@@ -691,6 +691,15 @@ func ruleBind(c *Ctx, a *reloadAnchors) {
 		ksrc := rangeSources(c, mu.Key, nil)
 		c.CheckAt("BIND", short(s)+":legacy-list-filed-under-its-own-port", mu, len(ksrc) > 0, "the legacy per-port list is not filed under the port of the key being processed")
 	})
+	// configuration order is kept: lists built in the start code are appended to (first configured ID wins for duplicates)
+	for _, cl := range sreg.Calls() {
+		if call, ok := cl.(*ssa.Call); ok {
+			switch eng.CalleeName(&call.Call) {
+			case "(*container/list.List).PushFront", "(*container/list.List).InsertBefore", "(*container/list.List).PushFrontList":
+				c.CheckAt("BIND", short(call.Parent())+":keys-kept-in-configuration-order", call, false, "keys are prepended to the list: the list order is the reverse of the configuration order, so a duplicated (cipher, secret) is attributed to the last configured ID instead of the first")
+			}
+		}
+	}
 	dedupFn := mainM(c).newList
 	for _, cl := range sreg.Calls() {
 		call, ok := cl.(*ssa.Call)
